@@ -32,8 +32,16 @@ def one(name, extra_checks):
     prop = re.match(r"(C\d+)", name).group(1)
     wt = tempfile.mkdtemp(prefix="seedwt-", dir="/tmp")
     os.rmdir(wt)
-    sh(["git", "-C", "/repo", "worktree", "add", "-q", "--detach", wt, "HEAD"])
-    head = sh(["git", "-C", "/repo", "rev-parse", "--short", "HEAD"]).stdout.strip()
+    # apply to /repo HEAD if possible, else to the (older) commit the change was written against
+    head = None
+    for base in ("HEAD", "5450e19", "22a8020"):
+        sh(["git", "-C", "/repo", "worktree", "add", "-q", "--detach", wt, base])
+        if sh(["git", "-C", wt, "apply", "--check", os.path.join(d, "patch.diff")]).returncode == 0:
+            head = sh(["git", "-C", wt, "rev-parse", "--short", "HEAD"]).stdout.strip()
+            break
+        sh(["git", "-C", "/repo", "worktree", "remove", "--force", wt])
+    if head is None:
+        return {"id": name, "property": prop, "note": "patch applies to none of HEAD / 5450e19 / 22a8020", "_keep": True}
     meta = {"id": name, "property": prop, "ran": [], "verified_against_repo_commit": head}
     try:
         demo = os.path.join(d, "demo.py")
